@@ -102,6 +102,7 @@ class Model:
 
 class C13(Machine):
     pid = "C13"
+    shadow_generic = True
     rule = ("run = Data/ClimateData on generated observable + irregular "
             "float32-exact coordinates + cycle + anomalies flag + 3..12 ops "
             "(set_window with bounds on/between samples, set_global_window, "
@@ -133,7 +134,8 @@ class C13(Machine):
         "(ValueError from GeoGrid), counted, not judged"]
 
     def lru_configs(self, tier):
-        return ["default", "1", "off"] if tier == "thorough" else ["default"]
+        return ["default", "1", "off", "shadow"] if tier == "thorough" \
+            else ["default", "shadow"]
 
     def budget(self, tier):
         if tier == "thorough":
